@@ -651,6 +651,14 @@ def msize (a : MFld K) : Nat := (a.leaves.map fun kv => prodNat kv.2.sizes).sum
 def mlin [Add K] [Mul K] (α : K) (a b : MFld K) : MFld K :=
   { a with leaves := List.zipWith (fun x y => (x.1, { x.2 with val := fun i => α * x.2.val i + y.2.val i })) a.leaves b.leaves }
 
+/-- SPECIFICATION side: dot product of two MultiFields as the sum of the leaf dot products -/
+def mvdVal [Add K] [Mul K] [OfNat K 0] (conj : K → K) (a b : MFld K) : K :=
+  sumOver (a.leaves.zip b.leaves) fun p => sumOver (allIdx p.1.2.sizes) fun i => conj (p.1.2.val i) * p.2.2.val i
+
+/-- SPECIFICATION side: the leaf stored under a key (`MultiField.__getitem__`) -/
+def lookupLeaf (k : String) (l : List (String × Fld K)) : Option (Fld K) :=
+  (l.find? fun kv => kv.1 == k).map (·.2)
+
 end Ops
 
 /-! ### the driver's scalar type: complex numbers with exact rational parts -/
